@@ -166,9 +166,17 @@ Fixpoint after_dot (s : str) (acc : str) : str :=
   | [] => acc
   | c :: r => if c =? 46 then after_dot r r else after_dot r acc
   end.
+(* a variable holding zero holds +0: assignment does not keep the sign of a negative zero, and a
+   parameter is a variable assigned the argument *)
+Definition stored_form (v : val) : val :=
+  match v with
+  | VSng b => if f32_is_zero b then VSng 0 else v
+  | VDbl b => if f64_is_zero b then VDbl 0 else v
+  | _ => v
+  end.
 Definition param_value (types : list vtype) (mangled : str) (v : val) : res val :=
   match key_type types (after_dot mangled mangled) with
-  | Some t => convert_to t v
+  | Some t => do x <- convert_to t v; Ok (stored_form x)
   | None => err E_Internal
   end.
 Definition store_var (name : str) (v : val) : SM unit :=
